@@ -160,3 +160,94 @@ func VH_C04_commit() {
 	rt.Observe("nops", len(got))
 	_ = entity.UnsetId
 }
+
+
+// vhFileOp is an operation with attached files.
+type vhFileOp struct {
+	vhOp
+	files []repository.Hash
+}
+
+func (o *vhFileOp) GetFiles() []repository.Hash { return o.files }
+
+// VH_C04_extratree: the files attached to the operations of a pack are referenced from
+// the commit's tree (an "extra" sub-tree), each exactly once, whatever operations
+// without files sit in between; the pack tree has exactly the documented entries, the
+// markers pointing at the empty blob.
+func VH_C04_extratree() {
+	vhResetPacks()
+	r := vrepo.New()
+	catalogue := []repository.Hash{"1111111111111111111111111111111111111111", "2222222222222222222222222222222222222222", "3333333333333333333333333333333333333333"}
+	nops := 1 + rt.Choose(rt.Param("OPS", 3))
+	var ops []Operation
+	attached := map[repository.Hash]bool{}
+	for k := 0; k < nops; k++ {
+		if rt.Choose(2) == 0 {
+			ops = append(ops, vhNewOp(k, vhAuthors[0])) // no file support
+			rt.Cover("op-without-files")
+			continue
+		}
+		fo := &vhFileOp{vhOp: *vhNewOp(k, vhAuthors[0])}
+		nf := rt.Choose(3)
+		for f := 0; f < nf; f++ {
+			h := catalogue[rt.Choose(len(catalogue))]
+			fo.files = append(fo.files, h)
+			attached[h] = true
+		}
+		ops = append(ops, fo)
+	}
+	opp := &operationPack{Author: vhAuthors[0], Operations: ops, EditTime: 5, CreateTime: 3}
+	commit, err := opp.Write(vhDef, r)
+	rt.Assert(err == nil, "pack-written")
+	if err != nil {
+		return
+	}
+	c, _ := r.ReadCommit(commit)
+	entries, _ := r.ReadTree(c.TreeHash)
+	names := map[string]int{}
+	var extra repository.Hash
+	for _, e := range entries {
+		names[e.Name]++
+		switch {
+		case e.Name == opsEntryName:
+			rt.Assert(e.ObjectType == repository.Blob, "ops-is-a-blob")
+		case e.Name == extraEntryName:
+			rt.Assert(e.ObjectType == repository.Tree, "extra-is-a-tree")
+			extra = e.Hash
+		default:
+			data, derr := r.ReadData(e.Hash)
+			rt.Assert(derr == nil && len(data) == 0 && e.ObjectType == repository.Blob, "marker-points-at-empty-blob")
+		}
+	}
+	for n, k := range names {
+		rt.Assert(k == 1, "tree-entry-names-unique:"+n[:1])
+	}
+	rt.Assert(names[opsEntryName] == 1 && names["version-1"] == 1 && names["edit-clock-5"] == 1 && names["create-clock-3"] == 1, "documented-tree-entries")
+	if len(attached) == 0 {
+		rt.Assert(extra == "", "no-extra-tree-without-files")
+		return
+	}
+	rt.Cover("files-attached")
+	rt.Assert(extra != "", "extra-tree-present")
+	if extra == "" {
+		return
+	}
+	fentries, _ := r.ReadTree(extra)
+	seen := map[repository.Hash]int{}
+	fnames := map[string]int{}
+	for _, e := range fentries {
+		seen[e.Hash]++
+		fnames[e.Name]++
+		rt.Assert(e.ObjectType == repository.Blob, "file-entry-is-a-blob")
+	}
+	for h := range attached {
+		rt.Assert(seen[h] == 1, "every-attached-file-referenced-once")
+	}
+	rt.Assert(len(seen) == len(attached), "only-attached-files-referenced")
+	for _, k := range fnames {
+		rt.Assert(k == 1, "file-entry-names-unique")
+	}
+	if nops > 1 {
+		rt.Cover("several-operations")
+	}
+}
